@@ -810,8 +810,10 @@ func checkFailover(c Case) (sh shape, err error) {
 				err = nil
 				break
 			}
-			if err == nil {
-				err = jerr // report the disagreement on the call's own (preferred) grid
+			// among failing readings prefer the one in which the only disagreement is the known pre-start presence
+			// (two concurrent windows can end at the same instant, so "the call's own grid" is not always unique)
+			if err == nil || (errors.Is(jerr, errBeforeStart) && !errors.Is(err, errBeforeStart)) {
+				err = jerr
 			}
 		}
 		if err != nil {
